@@ -119,7 +119,9 @@ def describe(case):
 def to_select(sel):
     if sel["form"] == "none":
         return None
-    return sel["groups"]
+    import copy
+
+    return copy.deepcopy(sel["groups"])  # the library gets its own objects: the case document stays as generated
 
 
 def locate(full_group, raw_all, ndim, raw):
